@@ -19,6 +19,21 @@ ROOT = os.environ.get('SIMPROCESD_ROOT', '/repo')
 sys.path.insert(0, ROOT)
 
 
+# native meaning of the specification functions that the verifier defines as z3 terms (contracts/devices.py)
+NATIVE_SPECFNS = {
+    'operational': (['d'], 'ite(typed(d, "PartProcessor"), not d._is_shut_down, True)'),
+    'asset_value': (['p'], 'ite(typed(p, "Batch"), sum(asset_value(q) for q in p.parts), p._value)'),
+}
+
+
+CLASS_ATTR_ENTRY = {}      # 'Class.attr' -> value at entry (class attributes set from the counter-model)
+
+
+class ClassRef:
+    def __init__(self, name, cls):
+        self.name, self.cls = name, cls
+
+
 class NotEvaluable(Exception):
     pass
 
@@ -108,6 +123,13 @@ class Builder:
                     if key in self.real_env and f not in ('_now', 'resource_manager', 'name'):
                         continue
                     o.__dict__[f] = self.val(v)
+                # objects of abstract mix-in classes (Maintainable) built bare: messages read `.name` of real targets
+                try:
+                    has_name = hasattr(o, 'name')
+                except Exception:
+                    has_name = True
+                if not has_name:
+                    o.__dict__['name'] = f'stub_{len(self.objs)}'
 
     def val(self, v):
         if 'none' in v:
@@ -186,6 +208,8 @@ class Ev:
             return env[n.id]
         if n.id in ('True', 'False', 'None'):
             return {'True': True, 'False': False, 'None': None}[n.id]
+        if n.id in self.classes and n.id[:1].isupper():
+            return ClassRef(n.id, self.classes[n.id])
         raise NotEvaluable('name ' + n.id)
 
     def e_Attribute(self, n, env, old):
@@ -194,6 +218,13 @@ class Ev:
             raise NotEvaluable('attribute of None')
         if isinstance(o, Opaque):
             raise NotEvaluable('attribute of opaque')
+        if isinstance(o, ClassRef):
+            key = f'{o.name}.{n.attr}'
+            if old and key in CLASS_ATTR_ENTRY:
+                return CLASS_ATTR_ENTRY[key]
+            if hasattr(o.cls, n.attr) and not callable(getattr(o.cls, n.attr)):
+                return getattr(o.cls, n.attr)
+            raise NotEvaluable('class attribute ' + key)
         d = self.attrs(o, old)
         if n.attr in d:
             return d[n.attr]
@@ -363,6 +394,23 @@ class Ev:
             return max(self.e(x, env, old) for x in a)
         if f == 'min':
             return min(self.e(x, env, old) for x in a)
+        if f == 'cast':
+            return self.e(a[0], env, old)
+        if f == 'sum' and len(a) == 1 and isinstance(a[0], ast.GeneratorExp) and len(a[0].generators) == 1:
+            gen = a[0].generators[0]
+            total = 0
+            for item in self.domain(gen.iter, env, old):
+                env2 = dict(env)
+                self.bind(gen.target, item, env2)
+                if all(self.truth(self.e(c, env2, old), old) for c in gen.ifs):
+                    total = total + self.e(a[0].elt, env2, old)
+            return total
+        if f in NATIVE_SPECFNS and f not in self.specfns:
+            ps, text = NATIVE_SPECFNS[f]
+            vals = [self.e(x, env, old) for x in a]
+            env2 = dict(env)
+            env2.update(zip(ps, vals))
+            return self.e(ast.parse(text, mode='eval').body, env2, old)
         if f in self.specfns:
             sf = self.specfns[f]
             vals = [self.e(x, env, old) for x in a]
@@ -477,6 +525,15 @@ def main(path):
     b = Builder(rp, classes)
     self_o = b.val(rp['self']) if rp.get('self') else None
     args = {k: b.val(v) for k, v in rp['args'].items() if 'unknown' not in v}
+    for key, v in (rp.get('class_attrs') or {}).items():
+        cn, an = key.split('.', 1)
+        if cn in classes and 'unknown' not in v:
+            try:
+                val = b.val(v)
+                setattr(classes[cn], an, val)
+                CLASS_ATTR_ENTRY[key] = val
+            except Exception:
+                pass
     qual = rp['function']
     mname = qual.split('.')[1]
     graph = reachable([self_o] + list(args.values()) + list(b.objs.values()))
@@ -521,6 +578,38 @@ def main(path):
         if cond is not None:
             raise_cond[(exc, cond)] = check(f'raises {exc} iff', cond, pre)
     print('entry state:', 'self =', describe(self_o), ' args =', {k: describe(v) for k, v in args.items()})
+    # ---- the external calls the function under test makes itself, in order (native counterpart of the ghost trace):
+    # methods of the environment, of other devices / assets of the object graph, and unknown callables (Stub)
+    native_trace, depth = [], [0]
+    RECORDED = ('schedule_event', 'add_datapoint', 'pause_matching_events', 'unpause_matching_events',
+                'cancel_matching_events', 'give_part', 'space_available_downstream', 'is_operational',
+                'add_routing_history', 'remove_from_routing_history', 'initialize', 'reserve_resources',
+                'reserve_resources_with_callback', 'release', 'probe', 'add_finish_processing_callback',
+                'add_on_sense_callback', 'get_work_order_duration', 'get_work_order_cost',
+                'get_work_order_capacity', 'start_work', 'end_work', 'create_work_order')
+
+    def wrap(obj, name):
+        real = getattr(obj, name)
+
+        def wrapper(*a, **k):
+            if depth[0] == 0:
+                native_trace.append(name)
+            depth[0] += 1
+            try:
+                return real(*a, **k)
+            finally:
+                depth[0] -= 1
+        return wrapper
+    for o in graph:
+        if o is self_o or isinstance(o, (list, dict, tuple, Stub, Opaque)) or not hasattr(o, '__dict__'):
+            continue
+        for name in RECORDED:
+            try:
+                if callable(getattr(type(o), name, None)):
+                    o.__dict__[name] = wrap(o, name)
+            except Exception:
+                pass
+    n_stub_calls = len(b.calls)
     # ---- run the real code
     outcome, result = 'return', None
     raised_in_neighbour = False
@@ -549,6 +638,11 @@ def main(path):
         if owner is not None and self_o is not None and owner is not self_o:
             raised_in_neighbour = True
             print(f'(raised inside another object: {type(owner).__name__})')
+    for o in graph:           # remove the recording wrappers again (they live in the instance dictionaries)
+        if hasattr(o, '__dict__') and not isinstance(o, (Stub, Opaque)):
+            for name in RECORDED:
+                if name in o.__dict__ and getattr(o.__dict__[name], '__name__', '') == 'wrapper':
+                    del o.__dict__[name]
     graph2 = reachable(graph + [result])
     env2 = dict(env)
     env2['result'] = result
@@ -582,6 +676,48 @@ def main(path):
                         violations.append(f'{n}: raised {exc} but state changed: ' + '; '.join(changed)[:600])
                 elif check(f'on {exc}: {n}', t, post) is False:
                     violations.append(f'on {exc}: clause {n} is false: {t}')
+    pred = rp.get('predicted') or {}
+    prediction_matched = None
+    if pred and not pred.get('error') and self_o is not None:
+        mism = []
+        if pred.get('outcome') and pred['outcome'] != outcome:
+            mism.append(f"outcome {outcome}, predicted {pred['outcome']}")
+        for f, pv in pred.get('fields', {}).items():
+            if f not in getattr(self_o, '__dict__', {}):
+                continue
+            nv = self_o.__dict__[f]
+            if 'none' in pv:
+                ok = nv is None
+            elif 'bool' in pv:
+                ok = nv is pv['bool'] or nv == pv['bool']
+            elif 'inf' in pv:
+                ok = nv == float('inf')
+            elif 'num' in pv:
+                want = number(pv['num'], 'int' in pv)
+                ok = isinstance(nv, (int, float, Fraction)) and not isinstance(nv, bool) and \
+                    abs(float(nv) - float(want)) <= 1e-9 * (1 + abs(float(want)))
+            elif 'list_len' in pv:
+                # (lists the run never touches have arbitrary lengths in the model and are built with at most 8 elements)
+                ok = isinstance(nv, list) and (pv['list_len'] is None or len(nv) == max(0, min(pv['list_len'], 8)))
+            elif 'dict_len' in pv:
+                ok = isinstance(nv, dict) and (pv['dict_len'] is None or len(nv) == max(0, min(pv['dict_len'], 8)))
+            elif 'object' in pv:
+                ok = nv is not None and (pv['object'] is None or pv['object'] not in b.objs or nv is b.objs[pv['object']])
+            else:
+                ok = True
+            if not ok:
+                mism.append(f'{f}: {describe(nv)}, predicted {pv}')
+        # calls: the ghost trace records every call that leaves the object (callbacks as "callback")
+        want_calls = list(pred.get('trace', []))
+        want_named = [k for k in want_calls if k in RECORDED]
+        if list(native_trace) != want_named:
+            mism.append(f'external calls {native_trace}, predicted {want_named}')
+        if len(b.calls) - n_stub_calls != sum(1 for k in want_calls if k == 'callback'):
+            mism.append(f'{len(b.calls) - n_stub_calls} calls of unknown callables, predicted '
+                        f'{sum(1 for k in want_calls if k == "callback")}')
+        prediction_matched = not mism
+        print('PREDICTION', 'matched: the real code did exactly what the verifier predicted from this entry state'
+              if prediction_matched else 'NOT matched: ' + '; '.join(mism)[:900])
     for x in notes:
         print('note:', x)
     print(f"TALLY outcome={outcome} entry_legal={entry_ok} clauses_true={tally['true']} clauses_false={tally['false']} "
@@ -594,6 +730,15 @@ def main(path):
         for v in violations:
             print('VIOLATED natively:', v)
         return 10
+    failed = (rp.get('failed') or {})
+    fname = failed.get('obligation', '').rsplit('.', 1)[-1]
+    failed_not_evaluable = any(('/' + fname + ' ' in x or ' ' + fname + ' ' in x or x.endswith(fname)) and
+                               x.startswith('not evaluable natively') for x in notes)
+    if not violations and entry_ok and prediction_matched and failed_not_evaluable and not os.environ.get('PYVC_DIFFERENTIAL'):
+        print(f'CONFIRMED BY PREDICTION: the entry state is legal natively and the real code reached exactly the state (fields '
+              f'of self, outcome, sequence of external calls) on which the verifier evaluated clause {fname} to false; the '
+              f'clause itself speaks about ghost state (call trace / ghost variables) and cannot be evaluated natively')
+        return 11
     if violations:
         print('clauses fail natively, but the entry state of the counter-model is not a legal state natively '
               '(unreachable intermediate state): not counted as reproduced')
